@@ -268,6 +268,97 @@ class StoredStep(Scenario):
             return "ok"
 
 
+class AddTables(Scenario):
+    """new depth and interval (from-to) tables of symbolic depths and values added to one hole of a stored group (optionally
+    in a later session): the hole reads back exactly the depths / intervals / values given, in memory and through a fresh
+    reader; the other holes are untouched"""
+    pid = "C04"
+    include_io = True
+    builtins_for = ("geoh5py.objects.drillhole:float,int",)
+
+    def run(self, cx):
+        if self.backend == "real":
+            return super().run(cx)
+        with h5shim.h5_on():
+            return super().run(cx)
+
+    def body(self, cx):
+        from geoh5py.workspace import Workspace
+        sizes, target, rows, kind = self.params["sizes"], self.params["target"], self.params["rows"], self.params["kind"]
+        h5shim.reset()
+        patch.STUBS_USED.add("h5py -> symx.h5shim proxy over the real in-memory HDF5 file (seam B, A-H5)")
+        ws, g, holes, depth_d, val_d = _build_group(sizes, self.params.get("version"))
+        others = {h.name: [float(v) for v in d.values] for k, (h, d) in enumerate(zip(holes, val_d)) if k != target}
+        ws.close()
+        with self.engine(cx) as X:
+            ws = Workspace(ws.h5file)           # a later session: nothing cached from the construction
+            g = [x for x in ws.groups if x.name == "DH"][0]
+            hole = [h for h in g.children if h.name == f"h{target}"][0]
+            vals = [cx.real(f"y{i}") for i in range(rows)]
+            assume_not_ndv(cx, vals)
+            if kind == "interval":
+                F = [cx.real(f"f{i}") for i in range(rows)]
+                T = [cx.real(f"t{i}") for i in range(rows)]
+                for i in range(rows):
+                    cx.assume(F[i] >= 0)
+                    cx.assume(F[i] < T[i])
+                assume_not_ndv(cx, F + T)
+                ft = [x for pair in zip(F, T) for x in pair]
+                d = hole.add_data({"new": {"from-to": mk_array(X, ft, (rows, 2), "float64"),
+                                           "values": mk_array(X, vals, (rows,), "float64")}})
+                expect = {"FROM": F, "TO": T, "new": vals}
+            else:
+                Z = [cx.real(f"z{i}") for i in range(rows)]
+                for i in range(rows):
+                    cx.assume(Z[i] >= 100 + 10 * i)         # a table of its own: far from the existing depths and increasing
+                    cx.assume(Z[i] < 105 + 10 * i)
+                assume_not_ndv(cx, Z)
+                d = hole.add_data({"new": {"depth": mk_array(X, Z, (rows,), "float64"), "values": mk_array(X, vals, (rows,), "float64")}},
+                                  property_group="second table")
+                expect = {"new": vals}
+
+            def check(h, tag):
+                pg = [p for p in (h.property_groups or []) if any(getattr(h.workspace.get_entity(u)[0] if False else None, "name", None) == "new"
+                                                                 for u in [])]
+                dd = h.get_data("new")
+                cx.prove(len(dd) == 1, f"{tag}: the new data set is found on the hole", "new table")
+                if len(dd) != 1:
+                    return
+                grp = dd[0].property_group
+                for name, exp in expect.items():
+                    if name == "new":
+                        got = elems(dd[0].values)
+                    else:
+                        ent = grp.from_ if name == "FROM" else grp.to_
+                        got = elems(ent.values) if ent is not None else None
+                    cx.prove(got is not None and len(got) == len(exp) and And([eq(a, b) for a, b in zip(got, exp)]),
+                             f"{tag}: {name} reads back exactly what was given, row by row", "new table")
+                if kind == "depth":
+                    got = elems(grp.depth_.values) if grp.depth_ is not None else None
+                    cx.prove(got is not None and len(got) == rows and And([eq(a, b) for a, b in zip(got, Z)]),
+                             f"{tag}: the depths of the new table read back exactly", "new table")
+            check(hole, "live")
+            for h in g.children:
+                if h.name in others:
+                    got = [float(v) for v in elems(h.get_data("lbl")[0].values)]
+                    cx.prove(got == others[h.name], f"{h.name} keeps its values", "frame")
+            ws.close()
+            ws2 = Workspace(ws.h5file)
+            g2 = [x for x in ws2.groups if x.name == "DH"][0]
+            for h in g2.children:
+                if h.name == f"h{target}":
+                    check(h, "re-read")
+                    old = h.get_data("lbl")
+                    cx.prove(len(old) == 1 and [float(v) for v in elems(old[0].values)] ==
+                             [float(v) for v in (real_np.arange(sizes[target]) + 5.0 + 10.0 * target)],
+                             "the hole keeps its earlier table", "frame")
+                elif h.name in others:
+                    got = [float(v) for v in elems(h.get_data("lbl")[0].values)]
+                    cx.prove(got == others[h.name], f"re-read: {h.name} keeps its values", "frame")
+            ws2.close()
+            return "ok"
+
+
 class CopyGroupThenEdit(Scenario):
     """copy the whole group into another workspace, update / remove data in the copy: the source holes keep their values,
     the copy's holes read back the values last written (in memory and through fresh readers)"""
@@ -509,6 +600,8 @@ def scenarios(tier, seed):
               StoredStep(sizes=[1, 2, 1], target=1, op="remove_hole", reopen_first=True),
               StoredStep(sizes=[2, 1], target=0, op="update", reopen_first=True)]
         S += [CopyGroupThenEdit(sizes=[2, 2, 1], target=0, op="update"), CopyGroupThenEdit(sizes=[1, 2, 2], target=1, op="remove")]
+        S += [AddTables(sizes=[1, 2], target=0, rows=2, kind="interval"), AddTables(sizes=[2, 1], target=1, rows=1, kind="interval"),
+              AddTables(sizes=[1, 1], target=0, rows=2, kind="depth")]
         S += [GroupTable(sizes=[2, 0, 1], then_update=0), GroupTable(sizes=[1, 2], then_update=1), GroupTable(sizes=[1, 1, 2])]
     else:
         shapes = _shape_tuples(2, 3) + _shape_tuples(3, 2) + [t for t in _shape_tuples(3, 3) if 3 in t][:12] + \
@@ -534,6 +627,10 @@ def scenarios(tier, seed):
             for tgt in range(len(sz)):
                 for op in ("update", "remove"):
                     S.append(CopyGroupThenEdit(sizes=sz, target=tgt, op=op))
+        for rows in (1, 2, 3):
+            for kind in ("interval", "depth"):
+                for tgt in (0, 1):
+                    S.append(AddTables(sizes=[1, 2], target=tgt, rows=rows, kind=kind))
         for sz in ([2, 0, 1], [1, 2], [1, 1, 2], [3, 1], [2, 2, 2], [1, 0, 0, 2]):
             S.append(GroupTable(sizes=sz))
             S.append(GroupTable(sizes=sz, then_update=0))
@@ -565,6 +662,6 @@ def main(tier, seed):
                          "setter on depth data (any length) / value data (same, shorter, longer length), "
                          "workspace.remove_entity(data), parent.remove_children([data])",
                 "thorough": "k in 2..4 holes, sizes<=3, new length in {0,1,2,4}, every target, both format versions"}[tier],
-        expected_outcomes={"UpdateValues": {"ok"}, "RemoveData": {"ok"}, "RemoveHole": {"ok"}, "GroupTable": {"ok"}, "StoredStep": {"ok"}, "CopyGroupThenEdit": {"ok"}},
+        expected_outcomes={"UpdateValues": {"ok"}, "RemoveData": {"ok"}, "RemoveHole": {"ok"}, "GroupTable": {"ok"}, "StoredStep": {"ok"}, "CopyGroupThenEdit": {"ok"}, "AddTables": {"ok"}},
         budget_s=600 if tier == "quick" else 3000,
     )
